@@ -185,6 +185,40 @@ def check_get_code(ctx: Ctx, rule: str, short: str):
         ctx.check(_mentions_param(farg, "format") and len(x[2]) == 1, rule, gc.key("formatter"), "the requested formatter is looked up and applied to the result", f"{short}::get_code does not apply the formatter selected by `format` to the generated code (it applies {_av.show(x[1])[:80]})", gc.where())
 
 
+def dispatched_calls(ctx: Ctx) -> dict:
+    """{command name: (command, [(value, main, node)], call log)}: the main(...) calls a command makes, as values"""
+    cached = ctx.__dict__.get("_dispatched_calls")
+    if cached is not None:
+        return cached
+    A = util.AV(ctx)
+    out = {}
+    for f in commands(ctx):
+        n0 = len(A.call_log)
+        try:
+            A.returned(f)
+        except Exception as e:
+            out[f.name] = (f, None, [], str(e))
+            continue
+        log = A.call_log[n0:]
+        calls = []
+        for caller, node, val in log:
+            m = resolve_dispatch(ctx, caller or f, node) if isinstance(node, ast.Call) else None
+            if m is not None and m.name == "main":
+                calls.append((val, m, node))
+        out[f.name] = (f, calls, log, None)
+    ctx.__dict__["_dispatched_calls"] = out
+    return out
+
+
+def get_code_calls(ctx: Ctx, short: str):
+    """values of the get_code(...) calls made by <short>::main"""
+    A = util.AV(ctx)
+    mainf = ctx.sm.func(short, "main")
+    n0 = len(A.call_log)
+    A.returned(mainf)
+    return [val for _c, _n, val in A.call_log[n0:] if val[0] == "call" and val[1].split(".")[-1] == "get_code"]
+
+
 def check_value_forwarding(ctx: Ctx, rule: str, caller: Func, val, callee: Func, node, skip: set = frozenset()):
     """check_call_forwarding on the *value* of the call (what reaches each parameter after helpers are expanded)"""
     from sa import av as _av
@@ -229,23 +263,15 @@ def run(ctx: Ctx):
     # ---- R18.a option forwarding ------------------------------------------------------------------
     ctx.rule("R18.a", "every option of a conversion command reaches the dispatched main; every parameter of a main reaches get_code, the output path or logging; every get_code parameter is used", floor=40)
     dispatching = []
-    A18 = util.AV(ctx)
     dispatched: dict[str, list] = {}
     for f in cmds:
-        n0 = len(A18.call_log)
-        try:
-            A18.returned(f)
-        except Exception as e:
-            ctx.undecided("R18.a", f.key("value"), f"command `{f.name}` could not be evaluated ({e})", f.where())
+        f, calls, log, err = dispatched_calls(ctx)[f.name]
+        if calls is None:
+            ctx.undecided("R18.a", f.key("value"), f"command `{f.name}` could not be evaluated ({err})", f.where())
             continue
-        log = A18.call_log[n0:]
-        calls = []
         by_node: dict[int, list] = {}
-        for caller, node, val in log:
-            m = resolve_dispatch(ctx, caller or f, node) if isinstance(node, ast.Call) else None
-            if m is not None and m.name == "main":
-                calls.append((val, m, node))
-                by_node.setdefault(id(node), []).append((val, m, node))
+        for val, m, node in calls:
+            by_node.setdefault(id(node), []).append((val, m, node))
         if not calls:
             continue
         dispatching.append(f)
@@ -276,9 +302,11 @@ def run(ctx: Ctx):
     for short in ("cli/gotran2py.py", "cli/gotran2c.py"):
         main = sm.func(short, "main")
         gc = sm.func(short, "get_code")
-        calls = [c for c in find_calls(main.node, "get_code")]
-        ctx.require(calls, f"{short}::main no longer calls get_code")
-        check_call_forwarding(ctx, "R18.a", main, calls[0], gc, skip={"ode"})
+        gvals = get_code_calls(ctx, short)
+        if not gvals:
+            ctx.undecided("R18.a", main.key("get_code"), f"{short}::main: no call of get_code is found in what it does", main.where())
+        else:
+            check_value_forwarding(ctx, "R18.a", main, gvals, gc, None, skip={"ode"})
         deps = fl.param_deps(main)
         used: set[str] = set()
         for u in fl.keyword_uses(main):
